@@ -226,9 +226,40 @@ class Exec15(Executor):
             dest = l.split(" = ")[0].strip()
             raise _StopPath(Stop("accepted", st.env.get(dest)))
 
+    @staticmethod
+    def _sanitize_call(line):
+        """calls whose callee path itself contains parentheses (`<dyn Fn(A, B) -> C as Fn<(A, B)>>::call(..)`):
+        find the argument list as the last balanced group before ` -> ` and neutralise the callee's own parens"""
+        m = re.match(r"^((?:\S+ = )?)(.*)\) -> (\[.*\]|bb\d+|unwind .*)$", line)
+        if not m or line.startswith(("switchInt", "assert(", "drop(", "goto", "return", "resume", "unreachable")):
+            return line
+        head, prefix, cont = m.groups()
+        depth, i = 1, len(prefix) - 1
+        in_str = False
+        while i >= 0:
+            ch = prefix[i]
+            if ch == '"':
+                in_str = not in_str
+            elif not in_str:
+                if ch == ")":
+                    depth += 1
+                elif ch == "(":
+                    depth -= 1
+                    if depth == 0:
+                        break
+            i -= 1
+        if i <= 0:
+            return line
+        callee, args = prefix[:i], prefix[i + 1:]
+        if "(" not in callee:
+            return line
+        callee = callee.replace("(", "\u27e8").replace(")", "\u27e9")
+        return f"{head}{callee}({args}) -> {cont}"
+
     def term(self, st, line, depth):
-        # `{async fn body of X::new()}` inside a callee path would end the callee at its `(`
-        return super().term(st, canon_state(line, self.state_locals).replace("()}", "}").replace("<(), ", "<Unit, ").replace("<()>", "<Unit>").replace(", ()>", ", Unit>"), depth)
+        # `{async fn body of X::new()}` / unit types inside a callee path would end the callee at their `(`
+        line = canon_state(line.rstrip(";"), self.state_locals).replace("()}", "}").replace("<(), ", "<Unit, ").replace("<()>", "<Unit>").replace(", ()>", ", Unit>")
+        return super().term(st, self._sanitize_call(line), depth)
 
     def _block(self, st, bb, depth):
         if depth > 300:
